@@ -21,7 +21,7 @@ try: ev=json.load(open('/tmp/sweep/evidence/%s.json'%u))
 except Exception as e: print('no evidence',e); sys.exit()
 import re
 log=open('/tmp/sweep/%s.log'%u).read()
-for m in re.finditer(r"^  (\S+)\s+(tp|tb|tcanary)\s+(\S+)\s*(.*)$", log, re.M):
+for m in re.finditer(r"^  (\S+)[ \t]+(tp|tb|tcanary)[ \t]+(\S+)[ \t]*(.*)$", log, re.M):
     v,k,n,why=m.groups()
     print(' ',v,k,n,why[:160])
 PY
